@@ -77,6 +77,40 @@ def corrupt(text: str, kind: str, rng: random.Random) -> str:
 	raise ValueError(kind)
 
 
+def nesting_depth(text: str) -> int:
+	"""Deepest syntactic nesting a text asks for: bracket depth, length of call / attribute / operator chains on one line, block depth."""
+	best = 0
+	for line in text.split('\n'):
+		depth = cur = 0
+		for ch in line:
+			if ch in '([{':
+				cur += 1
+				depth = max(depth, cur)
+			elif ch in ')]}':
+				cur = max(0, cur - 1)
+		best = max(best, depth, line.count(')('), line.count('.'), line.count(' + '), len(line) - len(line.lstrip('\t')))
+	return best
+
+
+DEEP_LIMIT = 200
+
+
+def deep_text(rng: random.Random) -> str:
+	d = rng.choice([250, 330, 400])
+	kind = rng.randrange(5)
+	if kind == 0:
+		return 'x = ' + '(' * d + '1' + ')' * d
+	if kind == 1:
+		return 'x = f' + '(1)' * d
+	if kind == 2:
+		return 'x = a' + '.b' * d
+	if kind == 3:
+		return 'x = ' + ' + '.join(['1'] * d)
+	return 'x = ' + '[' * d + '1' + ']' * d
+
+
+KF_DEEP = 'C07/recursion-limit-on-deeply-nested-input'
+
 CORRUPTIONS = ['flip', 'truncate', 'dup-block', 'drop-block', 'unbalance', 'indent', 'soup', 'swap-lines', 'token-replace']
 
 
@@ -229,6 +263,9 @@ class C07Runner:
 
 	def violation(self, vclass: str, k: int, detail: dict[str, Any], site_sig: str = '') -> None:
 		known = None
+		if KF_DEEP in self.known and site_sig.startswith('builtins.RecursionError@') and detail.get('nesting_depth', 0) > DEEP_LIMIT:
+			# signature: the interpreter's recursion limit is hit by an input that nests deeper than DEEP_LIMIT (anything shallower stays a violation)
+			known = KF_DEEP
 		for kid, kf in self.known.items():
 			if kf.get('site_signature') and kf['site_signature'] == site_sig:
 				known = kid
@@ -281,7 +318,7 @@ class C07Runner:
 			if res['escaped']:
 				e = res['escaped']
 				site = f"{e['cls']}@{e['site']}"
-				self.violation('exception-escapes-the-loop' if not e['is_tranp_error'] else 'tranp-error-escapes-the-loop', len(parsed), {'escaped': {k: e[k] for k in ('cls', 'site', 'msg')}, 'after_submissions': len(parsed) - 1, 'text': (subs[len(parsed) - 1] or '')[:300] if 0 < len(parsed) <= len(subs) else ''}, site_sig=site)
+				self.violation('exception-escapes-the-loop' if not e['is_tranp_error'] else 'tranp-error-escapes-the-loop', len(parsed), {'escaped': {k: e[k] for k in ('cls', 'site', 'msg')}, 'after_submissions': len(parsed) - 1, 'text': (subs[len(parsed) - 1] or '')[:300] if 0 < len(parsed) <= len(subs) else '', 'nesting_depth': nesting_depth(subs[len(parsed) - 1] or '') if 0 < len(parsed) <= len(subs) else 0}, site_sig=site)
 			else:
 				if res['quit_count'] != 1:
 					self.violation('quit-not-printed-once', 0, {'quit_count': res['quit_count'], 'tail': res['tail']})
@@ -346,12 +383,12 @@ class C07Runner:
 			chain = e.get('chain', [])
 			# (this check injects no cache damage: a cache file that cannot be decoded here was left behind by tranp itself)
 			if not e['is_tranp_error']:
-				self.violation('non-tranp-exception-from-disk-module', k, {'error': {kk: e[kk] for kk in ('cls', 'site', 'msg')}, 'text': st['text'][:300], 'attempt': attempt}, site_sig=site)
+				self.violation('non-tranp-exception-from-disk-module', k, {'error': {kk: e[kk] for kk in ('cls', 'site', 'msg')}, 'text': st['text'][:300], 'nesting_depth': nesting_depth(st['text']), 'attempt': attempt}, site_sig=site)
 			else:
 				self.bump('disk_errors', e['cls'].split('.')[-1])
 			if not r.get('render_ok', True):
 				re_ = r.get('render_error') or {}
-				self.violation('error-rendering-fails', k, {'error': e['cls'], 'render_error': {kk: re_.get(kk) for kk in ('cls', 'site', 'msg')}}, site_sig=f"render:{re_.get('cls')}@{re_.get('site')}")
+				self.violation('error-rendering-fails', k, {'error': e['cls'], 'render_error': {kk: re_.get(kk) for kk in ('cls', 'site', 'msg')}, 'nesting_depth': nesting_depth(st['text'])}, site_sig=f"{re_.get('cls')}@render:{re_.get('site')}")
 			# unparsable text must be Errors.Syntax on both paths: compare with what the in-memory path said for the same text
 			mem = None if (st.get('bad_byte_at') is not None or st.get('encoding')) else self.memory_class(proj, init, st['text'])
 			if e.get('is_syntax') and mem not in ('Syntax', None):
@@ -421,6 +458,7 @@ class C07(Engine):
 			cases.append({'pool': pool, 'steps': steps})
 		cases.append({'pool': pool, 'steps': [V(base[0]), {'kind': 'disk', 'text': "def f(k: int) -> int:\n\ts = 'caf\u00e9'\n\treturn k", 'encoding': 'latin-1', 'mode': 'load', 'twice': True},
 			{'kind': 'disk', 'text': base[1], 'bad_byte_at': 0.5, 'bad_byte': 0xFF, 'mode': 'runner'}, {'kind': 'disk', 'text': base[2], 'bad_byte_at': 0.0, 'bad_byte': 0xC3, 'mode': 'load'}, V(base[0])]})
+		cases.append({'pool': pool, 'steps': [V(base[0]), {'kind': 'corrupt', 'corruption': 'deep-nesting', 'text': 'x = ' + '(' * 150 + '1' + ')' * 150}, V(base[0]), {'kind': 'corrupt', 'corruption': 'deep-nesting', 'text': 'x = f' + '(1)' * 600}]})
 		cases.append({'pool': pool, 'steps': [{'kind': 'disk', 'text': 'def f(k: int) -> int:\n\treturn (k +', 'mode': 'runner', 'twice': True}, {'kind': 'disk', 'text': 'class A:\n\tdef m(self) -> int:\n\t\treturn 1\n\ndef m2(self, k: int) -> int:\n\treturn self.k', 'mode': 'load'}, V(base[0])]})
 		return cases
 
@@ -451,6 +489,11 @@ class C07(Engine):
 				else:
 					src = rng.choice(base + [pool['variants'][m][0]['src'].rstrip('\n') for m in pool['modules']])
 					steps.append({'kind': 'disk', 'corruption': c, 'text': corrupt(src, c, rng), 'mode': rng.choice(['load', 'load', 'runner']), 'twice': rng.random() < 0.3})
+		if rng.random() < 0.08:
+			# last, because the loop is known not to survive it (see known findings): everything before it is judged normally
+			steps.append({'kind': 'corrupt', 'corruption': 'deep-nesting', 'text': deep_text(rng)})
+		elif rng.random() < 0.03:
+			steps.append({'kind': 'disk', 'corruption': 'deep-nesting', 'text': deep_text(rng), 'mode': 'load'})
 		return {'pool': pool, 'steps': steps}
 
 	def execute(self, case: dict[str, Any]) -> dict[str, Any]:
